@@ -4,3 +4,7 @@ INVARIANT C31_BothSolve
 INVARIANT C31_BusVoltages
 INVARIANT C31_TrafoFlows
 INVARIANT C31_InputsUntouched
+INVARIANT C31_3W_BusVoltages
+INVARIANT C31_3W_Flows
+INVARIANT C31_3W_CaseFromSpec
+INVARIANT C31_3W_RowsDistinct
